@@ -53,7 +53,7 @@ func c13Directed(tier string) [][]uint64 {
 func c13Run(r *core.Run) {
 	t := r.Tape
 	o := DrawOut(r, 0, false)
-	if !o.Build() {
+	if !o.PreHistory(r) || !o.Build() {
 		return
 	}
 	kind := outKinds[t.Int(3, "c13.kind")]
